@@ -293,7 +293,7 @@ def run(chk: Check, args):
 
     if thorough:
         for cfg, label, acts in [
-                ('MC_c13_big.cfg', '3 peers, 7 events', [a for a in C13_ACTIONS if a != 'Drained']),
+                ('MC_c13_big.cfg', '3 peers, 8 events', [a for a in C13_ACTIONS if a != 'Drained']),
                 ('MC_c13_big_slow.cfg', '3 peers, 6 events, back-pressured child links', C13_ACTIONS),
                 ('MC_c13_big_p4.cfg', '4 peers, 6 events', [a for a in C13_ACTIONS if a != 'Drained'])]:
             r = tlc.model_check(MC, cfg, expect_actions=acts, timeout=3000)
